@@ -59,11 +59,19 @@ def model_check(structs, form, xdesc, leaf="any"):
     """-> (allowed, structs after)"""
     if xdesc[0] == "none":
         return {dl.TRUE}, structs
+    if leaf == "uptree":
+        # L = Union[str, PyTree[int]]: a str is a leaf, and so is every maximal subtree all of whose leaves are ints (PyTree[int]
+        # matches it as a whole -- vacuously also None and empty containers)
+        is_leaf = lambda d: (d[0] == "leaf" and d[1] == "str") or all(lf[1] != "str" for lf in pt.leaves(d))  # noqa: E731
+        return _model_structure(structs, form, pt.structure(xdesc, is_leaf))
     if leaf in ("int", "pair") and has_bad_leaf(xdesc):
         # a leaf that is not an int: rejected (or AnnotationError if the structure part cannot be evaluated), nothing bound
         al, _ = model_check(structs, form, xdesc, "any")
         return ({dl.ANNERR} if al == {dl.ANNERR} else {dl.FALSE}), structs
-    sx = pt.structure(xdesc)
+    return _model_structure(structs, form, pt.structure(xdesc))
+
+
+def _model_structure(structs, form, sx):
     names, prefix, suffix = form_pieces(form)
     if len(form.split()) == 1:
         n = names[0]
@@ -86,7 +94,7 @@ def model_check(structs, form, xdesc, leaf="any"):
 
 def selfcheck(desc):
     """vf.models.pytree vs jax.tree_util on one tree."""
-    real = pt.build(desc, lambda p: "bad-leaf" if p == "bad" else 1)
+    real = pt.build(desc, lambda p: "bad-leaf" if p in ("bad", "str") else 1)
     n = len(jtu.tree_leaves(real))
     if n != len(pt.leaves(desc)) or n != pt.n_leaves(pt.structure(desc)):
         raise HarnessError(f"PyTree model disagrees with jax.tree_util on the leaves of {desc}")
@@ -200,8 +208,12 @@ def check_case(ctx, case):
     obs.reset_state()
     t, s, x = (gt.from_json(case[k]) for k in ("t", "s", "x"))
     form = case["form"]
-    L = {"int": int, "any": Any, "pair": tuple[int, int]}[case["leaf"]]
+    from typing import Union
+
+    L = {"int": int, "any": Any, "pair": tuple[int, int], "uptree": Union[str, PyTree[int]]}[case["leaf"]]
     rt, rs, rx = selfcheck(t), selfcheck(s), selfcheck(x)
+    if case["leaf"] == "uptree":
+        rt, rs, rx = (pt.build(d, lambda p: "s-leaf" if p == "str" else 1) for d in (t, s, x))
     if case["leaf"] == "pair":
         # every leaf is itself a container, (7, 8), that only the leaf type makes a leaf
         rt, rs, rx = (pt.build(d, lambda p: "bad-leaf" if p == "bad" else (7, 8)) for d in (t, s, x))
@@ -269,7 +281,13 @@ def c09_case(draw):
     nmut = draw(st.sampled_from([0, 1, 0, 0, 1, 2]))
     for _ in range(nmut):
         x = mutate(draw, x)
-    leaf_kind = draw(st.sampled_from(["int", "pair", "any", "int"]))
+    leaf_kind = draw(st.sampled_from(["int", "pair", "any", "uptree", "int"]))
+    if leaf_kind == "uptree":
+        def strs(tree):
+            nl = len(pt.leaves(tree))
+            return gt.relabel(tree, iter(["str" if draw(st.integers(0, 2)) == 0 else 0 for _ in range(nl)])) if nl else tree
+
+        t, s, x = strs(t), strs(s), strs(x)
     if leaf_kind == "pair" and draw(st.integers(0, 1)) == 0:
         # collapse one tuple-of-two-leaves of x into a single leaf: with L = tuple[int,int] that leaf is the object
         # (7, 8), which only the leaf type keeps from being traversed
@@ -287,7 +305,7 @@ def c09_case(draw):
 
         x = collapse(x, [False])
     # occasionally one leaf of t or x is not an int: with L=int that check must fail and bind nothing
-    if draw(st.integers(0, 7)) == 0:
+    if leaf_kind != "uptree" and draw(st.integers(0, 7)) == 0:
         which = draw(st.sampled_from(["t", "x"]))
         tree = t if which == "t" else x
         nl = len(pt.leaves(tree))
